@@ -33,6 +33,10 @@ SCOPE = {
     (SM, "JokerSamples.ln_unmarginalized_likelihood"): 4,
     (DH, "validate_prepare_data"): 2,
     (UN, "to_unit"): 0,
+    # data cleaning / selection never looks at bare numbers: a threshold on `.value` would mean something else in every unit
+    ("thejoker.data", "RVData.__init__"): 0,
+    ("thejoker.data", "RVData.__getitem__"): 0,
+    ("thejoker.data", "RVData.phase"): 0,
 }
 
 
@@ -347,8 +351,16 @@ def check_shift(ctx):
     ctx.floor(R, n, 4)
 
 
+def check_append(ctx):
+    from .C12 import check_unit_refusal
+    ctx.rule("C07-APPEND", "a table whose columns are stored in other units is never appended to an existing file: the stored unit strings are compared for equality and the "
+                           "whole metadata (which records the units) takes part in the conflict check (shared with C12-REFUSE).")
+    check_unit_refusal(_Relabel(ctx, {"C12-REFUSE": "C07-APPEND"}))
+
+
 def run(ctx):
     check_shift(ctx)
+    check_append(ctx)
     check_inventory(ctx)
     check_kernel_units(ctx)
     check_meanstd(ctx)
